@@ -68,10 +68,10 @@ class PathSolver:
             self.n += 1
         subs = split_goal(ob.goal)
         r = z3.unsat
-        if self.hints.get(ob.name) == "mbqi":
-            # known (from the committed baseline) to need the model-based pass: go there directly
+        if self.hints.get(ob.name) in ("mbqi", "reparse"):
+            # known (from the committed baseline) to need the model-based / re-parsed pass: go there directly
             ob.pc = tuple(self.facts[:ob.nfacts])
-            discharge(ob, recheck_cvc5=recheck_cvc5, mbqi_first=True)
+            discharge(ob, recheck_cvc5=recheck_cvc5, mbqi_first=self.hints[ob.name] == "mbqi", reparse_first=self.hints[ob.name] == "reparse")
             ob.time = time.time() - t0
             if ob.status != "discharged":
                 self.hard.add(ob.name)
@@ -105,13 +105,31 @@ class PathSolver:
         return ob
 
 
-def discharge(ob, use_cvc5=True, recheck_cvc5=False, mbqi_first=False):
+def _reparsed_check(ob, g):
+    try:
+        s1 = z3.Solver()
+        for p in ob.pc:
+            s1.add(p)
+        s1.add(z3.Not(g))
+        ctx2 = z3.Context()
+        s2 = z3.Solver(ctx=ctx2)
+        s2.from_string(s1.to_smt2())
+        s2.set("timeout", Z3_TIMEOUT_MS)
+        return s2.check() == z3.unsat
+    except z3.Z3Exception:
+        return False
+
+
+def discharge(ob, use_cvc5=True, recheck_cvc5=False, mbqi_first=False, reparse_first=False):
     """Sets ob.status in {'discharged','failed','unknown'} and ob.backend."""
     t0 = time.time()
     g = ob.goal
     if z3.is_true(g):
         ob.status, ob.backend = "discharged", "syntactic"
         ob.time = 0.0
+        return ob
+    if reparse_first and _reparsed_check(ob, g):
+        ob.status, ob.backend, ob.time = "discharged", "z3-reparse", time.time() - t0
         return ob
     # pass 1: E-matching only (explicit patterns; fast and predictable); pass 2: default (MBQI)
     r = z3.unknown
@@ -134,9 +152,27 @@ def discharge(ob, use_cvc5=True, recheck_cvc5=False, mbqi_first=False):
                 break
         if r != z3.unsat:
             break
+    if r == z3.unknown and not reparse_first:
+        # last z3 attempt: the goal as one formula (not split, not skolemised by us), printed and re-read into a fresh
+        # context (what the z3 command line would see), default configuration -- quantifier instantiation is sensitive
+        # to term order, and the re-parsed problem is often decided at once where the in-memory one is not
+        try:
+            s1 = z3.Solver()
+            for p in ob.pc:
+                s1.add(p)
+            s1.add(z3.Not(g))
+            ctx2 = z3.Context()
+            s2 = z3.Solver(ctx=ctx2)
+            s2.from_string(s1.to_smt2())
+            s2.set("timeout", Z3_TIMEOUT_MS)
+            r2 = s2.check()
+            if r2 == z3.unsat:
+                r, mbqi = r2, "reparse"
+        except z3.Z3Exception:
+            pass
     ob.time = time.time() - t0
     if r == z3.unsat:
-        ob.status, ob.backend = "discharged", ("z3-mbqi" if mbqi else "z3")
+        ob.status, ob.backend = "discharged", ("z3-reparse" if mbqi == "reparse" else "z3-mbqi" if mbqi else "z3")
     elif r == z3.sat:
         ob.status, ob.backend = "failed", "z3"
         try:
